@@ -581,29 +581,45 @@ func scanTokens(src string) ([]tok, error) {
 
 // rewriteSpec turns the extended syntax into plain Go source.
 func rewriteSpec(toks []tok) (string, error) {
-	// quantifier at the front
-	if len(toks) > 0 && toks[0].t == token.IDENT && (toks[0].lit == "forall" || toks[0].lit == "exists") {
-		// forall x T :: body   (T may be several tokens, e.g. pkg.Type or []byte)
-		k := -1
-		for i := 1; i+1 < len(toks); i++ {
-			if toks[i].t == token.COLON && toks[i+1].t == token.COLON {
-				k = i
+	// a quantifier at depth 0 extends to the end of the expression: rewrite it first and treat it as an atom
+	{
+		depth := 0
+		for k := 0; k < len(toks); k++ {
+			switch toks[k].t {
+			case token.LPAREN, token.LBRACK, token.LBRACE:
+				depth++
+			case token.RPAREN, token.RBRACK, token.RBRACE:
+				depth--
+			}
+			if depth == 0 && toks[k].t == token.IDENT && (toks[k].lit == "forall" || toks[k].lit == "exists") && k+1 < len(toks) && toks[k+1].t == token.IDENT {
+				q := toks[k:]
+				sep := -1
+				for i := 1; i+1 < len(q); i++ {
+					if q[i].t == token.COLON && q[i+1].t == token.COLON {
+						sep = i
+						break
+					}
+				}
+				if sep < 3 {
+					return "", fmt.Errorf("malformed quantifier")
+				}
+				name := q[1].lit
+				var ty strings.Builder
+				for _, t := range q[2:sep] {
+					ty.WriteString(t.lit)
+				}
+				body, err := rewriteSpec(q[sep+2:])
+				if err != nil {
+					return "", err
+				}
+				atom := fmt.Sprintf("%s_(func(%s %s) bool { return %s })", q[0].lit, name, ty.String(), body)
+				if k == 0 {
+					return atom, nil
+				}
+				toks = append(append([]tok(nil), toks[:k]...), tok{token.IDENT, atom})
 				break
 			}
 		}
-		if k < 0 || k < 3 {
-			return "", fmt.Errorf("malformed quantifier")
-		}
-		name := toks[1].lit
-		var ty strings.Builder
-		for _, t := range toks[2:k] {
-			ty.WriteString(t.lit)
-		}
-		body, err := rewriteSpec(toks[k+2:])
-		if err != nil {
-			return "", err
-		}
-		return fmt.Sprintf("%s_(func(%s %s) bool { return %s })", toks[0].lit, name, ty.String(), body), nil
 	}
 	// split on top-level <==> then ==> (right associative)
 	depth := 0
